@@ -523,6 +523,31 @@ func (e *c15Env) vertexShapes(f func(v *protobufcompiled.Vertex, desc string)) {
 		f(v, fmt.Sprintf("vertex.transaction.receiver=%d", ai))
 	}
 	f(mk(), "vertex=valid")
+	// Vertices that carry a transaction the node is currently AWAITING (hash and receiver of an entry in the awaiting
+	// lists): refusing such a vertex - unknown parents, damaged seal, forged body - must leave the entry where it is.
+	unknownL, unknownR := shapeBytes(32, 0x51), shapeBytes(32, 0x52)
+	for _, sh := range []string{"unknown-parents sealed", "unknown-parents garbage-seal", "unknown-parents unsigned", "known-parents garbage-seal", "forged-body unknown-parents"} {
+		atx := e.s.w.MakeTx(1, 2, spice.Melange{}, 12)
+		if err := e.s.hip.SaveAwaitedTransaction(&atx); err != nil {
+			continue
+		}
+		var l, r ref.Hash
+		copy(l[:], unknownL)
+		copy(r[:], unknownR)
+		if strings.HasPrefix(sh, "known-parents") {
+			l, r = tip.Hash, tip.Hash
+		}
+		pv := gossip.VerifVertexToProto(e.s.w.Craft(e.s.w.RogueWallet(0), atx, l, r, 7))
+		switch {
+		case strings.HasSuffix(sh, "garbage-seal"):
+			pv.Signature = shapeBytes(64, 9)
+		case strings.HasSuffix(sh, "unsigned"):
+			pv.Signature, pv.Transaction.IssuerSignature = nil, nil
+		case strings.HasPrefix(sh, "forged-body"):
+			pv.Transaction.Subject, pv.Transaction.Data = "forged", shapeBytes(5, 3)
+		}
+		f(pv, "vertex.transaction=awaited "+sh)
+	}
 }
 
 func (e *c15Env) gossiperLists(hash []byte) map[string][]*protobufcompiled.Gossiper {
